@@ -472,7 +472,8 @@ Proof. intros. reflexivity. Qed.
 
 Lemma split_parts_spec : forall o e l, 0 <= o < 10 ^ 17 -> (o = 0 \/ l = Z.of_nat (declen o)) ->
   let p := split_parts o e l in
-  parts_ok p /\ same_val (parts_N p) (parts_E p) o e /\ (o = 0 -> p_int p = 0 /\ p_dec p = 0) /\ (0 < o -> 0 < p_int p \/ 0 < p_dec p).
+  parts_ok p /\ same_val (parts_N p) (parts_E p) o e /\ (o = 0 -> p_int p = 0 /\ p_dec p = 0) /\ (0 < o -> 0 < p_int p \/ 0 < p_dec p) /\
+  Z.min e 0 <= parts_E p <= 0.
 Proof.
   intros o e l Ho Hl. pose proof (small_17 o Ho) as So.
   unfold split_parts. destruct (Z.leb_spec 0 e) as [He | He].
@@ -500,14 +501,16 @@ Proof.
         eapply Z.le_trans; [|exact C]. apply pow10_le. lia. }
       assert (forall dpl lz, lz + Z.of_nat (declen dp) = nexp -> 0 <= lz ->
               let p := {| p_int := ip; p_int_len := l - nexp; p_tz := 0; p_dec := dp; p_dec_len := dpl; p_lz := lz |} in
-              parts_ok p /\ same_val (parts_N p) (parts_E p) o e /\ (o = 0 -> p_int p = 0 /\ p_dec p = 0) /\ (0 < o -> 0 < p_int p \/ 0 < p_dec p)) as Hgen.
+              parts_ok p /\ same_val (parts_N p) (parts_E p) o e /\ (o = 0 -> p_int p = 0 /\ p_dec p = 0) /\ (0 < o -> 0 < p_int p \/ 0 < p_dec p) /\
+              Z.min e 0 <= parts_E p <= 0) as Hgen.
       { intros dpl lz Hsum Hlz. cbn zeta. unfold parts_ok, parts_N, parts_E, same_val. cbn [p_int p_dec p_tz p_lz].
         change (10 ^ 0) with 1. rewrite Hsum.
         split; [repeat split; lia|]. split.
         - destruct (Z.eqb_spec dp 0) as [E0 | N0].
           + rewrite Z.min_r by lia. replace (e - e) with 0 by lia. change (10 ^ 0) with 1. replace (0 - e) with nexp by (unfold nexp; lia). lia.
           + replace (- nexp) with e by (unfold nexp; lia). rewrite Z.min_id, Z.sub_diag. change (10 ^ 0) with 1. lia.
-        - split; [intros ->; unfold ip, dp; rewrite Z.div_0_l, Z.mod_0_l by lia; split; reflexivity|]. lia. }
+        - split; [intros ->; unfold ip, dp; rewrite Z.div_0_l, Z.mod_0_l by lia; split; reflexivity|].
+          split; [lia|]. destruct (dp =? 0); unfold nexp; lia. }
       destruct (Z.ltb_spec dp (10 ^ (nexp - 1))) as [Hsmall | Hbig].
       * rewrite D17. apply Hgen; lia.
       * apply Hgen; [|lia].
@@ -521,7 +524,6 @@ Proof.
         replace (- (nexp - l + Z.of_nat (declen o))) with e by (unfold nexp; lia). rewrite Z.min_id, Z.sub_diag. change (10 ^ 0) with 1.
         repeat split; try lia; change (10 ^ 17) with 100000000000000000; lia.
 Qed.
-
 
 (* ------------------------------------------------------------------ exact rational values *)
 From Coq Require Import QArith Qabs Qpower.
@@ -610,26 +612,30 @@ Lemma fixed_parts_spec : forall m e prec, 1 <= m < 10 ^ 17 -> 0 <= prec ->
   parts_ok p /\
   (0 <= e \/ - e <= prec -> (dval (parts_N p) (parts_E p) == dval m e)%Q) /\
   (e < 0 -> prec < - e -> (dval (parts_N p) (parts_E p) == dval (round_half_even m (10 ^ (- e - prec))) (- prec))%Q) /\
-  (Qabs (dval (parts_N p) (parts_E p) - dval m e) <= (1 # 2) * (10 # 1) ^ (- prec))%Q.
+  (Qabs (dval (parts_N p) (parts_E p) - dval m e) <= (1 # 2) * (10 # 1) ^ (- prec))%Q /\
+  Z.min e 0 <= parts_E p <= 0 /\
+  (0 <= e \/ - e <= prec -> same_val (parts_N p) (parts_E p) m e).
 Proof.
   intros m e prec Hm Hp. unfold fixed_parts.
   assert (forall o' e' l', 0 <= o' < 10 ^ 17 -> (o' = 0 \/ l' = Z.of_nat (declen o')) ->
-          parts_ok (split_parts o' e' l') /\ (dval (parts_N (split_parts o' e' l')) (parts_E (split_parts o' e' l')) == dval o' e')%Q) as Hemit.
-  { intros o' e' l' Ho Hl. destruct (split_parts_spec o' e' l' Ho Hl) as (Hok & Hsv & _). split; [exact Hok | apply same_val_dval; exact Hsv]. }
+          parts_ok (split_parts o' e' l') /\ (dval (parts_N (split_parts o' e' l')) (parts_E (split_parts o' e' l')) == dval o' e')%Q /\
+          Z.min e' 0 <= parts_E (split_parts o' e' l') <= 0 /\ same_val (parts_N (split_parts o' e' l')) (parts_E (split_parts o' e' l')) o' e') as Hemit.
+  { intros o' e' l' Ho Hl. destruct (split_parts_spec o' e' l' Ho Hl) as (Hok & Hsv & _ & _ & Hbd). split; [exact Hok|]. split; [apply same_val_dval; exact Hsv|]. split; [exact Hbd | exact Hsv]. }
   assert (forall x y : Q, (x == y)%Q -> (Qabs (x - y) <= (1 # 2) * (10 # 1) ^ (- prec))%Q) as Hzero.
   { intros x y Exy. setoid_replace (x - y)%Q with 0%Q by (rewrite Exy; ring). cbn [Qabs Z.abs].
     apply Qmult_le_0_compat; [discriminate | apply Qlt_le_weak, ten_pow_pos]. }
   destruct (Z.leb_spec 0 e) as [He | He].
-  - destruct (Hemit m e (decimalLength17 m) ltac:(lia)) as (P1 & P3).
+  - destruct (Hemit m e (decimalLength17 m) ltac:(lia)) as (P1 & P3 & P4 & P6).
     { right. apply decimalLength17_declen. lia. }
-    cbn zeta. split; [exact P1|]. split; [intros _; exact P3|]. split; [lia|]. apply Hzero. exact P3.
+    cbn zeta. split; [exact P1|]. split; [intros _; exact P3|]. split; [lia|]. split; [apply Hzero; exact P3|]. split; [exact P4 | intros _; exact P6].
   - pose proof (adapt_spec m e prec Hm He Hp) as HA.
     destruct (adapt m e (decimalLength17 m) prec) as [[o' e'] l'].
     destruct HA as (A1 & A2 & A3 & A4 & A5 & A6 & A7 & A8).
-    destruct (Hemit o' e' l' A4 A5) as (P1 & P3).
+    destruct (Hemit o' e' l' A4 A5) as (P1 & P3 & P4 & P6).
     cbn zeta. split; [exact P1|].
+    assert (Z.min e 0 <= parts_E (split_parts o' e' l') <= 0) as P5 by lia.
     destruct (Z.le_gt_cases (- e) prec) as [G | G].
-    + destruct (A1 G) as [-> ->]. split; [intros _; exact P3|]. split; [lia|]. apply Hzero. exact P3.
+    + destruct (A1 G) as [-> ->]. split; [intros _; exact P3|]. split; [lia|]. split; [apply Hzero; exact P3|]. split; [exact P5 | intros _; exact P6].
     + specialize (A2 G). specialize (A6 G).
       assert (same_val o' e' (round_half_even m (10 ^ (- e - prec))) (- prec)) as SV.
       { unfold same_val. rewrite Z.min_r by lia. rewrite Z.sub_diag. change (10 ^ 0) with 1. rewrite Z.mul_1_r.
@@ -637,7 +643,7 @@ Proof.
         apply (Z.mul_cancel_r _ _ (10 ^ (- e - prec))); [lia|]. rewrite <- A2.
         rewrite <- Z.mul_assoc, <- pow10_split by lia. f_equal. f_equal. lia. }
       pose proof (same_val_dval _ _ _ _ SV) as EQ.
-      split; [lia|]. split; [intros _ _; rewrite P3; exact EQ|].
+      split; [lia|]. split; [intros _ _; rewrite P3; exact EQ|]. split; [|split; [exact P5 | lia]].
       rewrite P3, EQ. apply half_unit_bound; [lia|].
       apply round_half_even_bound. apply pow10_pos. lia.
 Qed.
@@ -647,12 +653,13 @@ Theorem fixed_layout_value : forall m e sign prec, 1 <= m < 10 ^ 17 -> 0 <= prec
     parse_number (to_chars_fixed m e sign prec) = Some (NVdec (sign && negb (N =? 0)) N E) /\ 0 <= N /\
     (0 <= e \/ - e <= prec -> (dval N E == dval m e)%Q) /\
     (e < 0 -> prec < - e -> (dval N E == dval (round_half_even m (10 ^ (- e - prec))) (- prec))%Q) /\
-    (Qabs (dval N E - dval m e) <= (1 # 2) * (10 # 1) ^ (- prec))%Q.
+    (Qabs (dval N E - dval m e) <= (1 # 2) * (10 # 1) ^ (- prec))%Q /\
+    Z.min e 0 <= E <= 0 /\ (0 <= e \/ - e <= prec -> same_val N E m e).
 Proof.
-  intros m e sign prec Hm Hp. destruct (fixed_parts_spec m e prec Hm Hp) as (Hok & V1 & V2 & V3).
+  intros m e sign prec Hm Hp. destruct (fixed_parts_spec m e prec Hm Hp) as (Hok & V1 & V2 & V3 & V4 & V5).
   exists (parts_N (fixed_parts m e prec)), (parts_E (fixed_parts m e prec)).
   unfold to_chars_fixed. rewrite parse_emit_parts by assumption. rewrite sign_flag by assumption.
-  split; [reflexivity|]. split; [apply parts_N_zero; assumption|]. split; [exact V1|]. split; [exact V2 | exact V3].
+  split; [reflexivity|]. split; [apply parts_N_zero; assumption|]. split; [exact V1|]. split; [exact V2|]. split; [exact V3|]. split; [exact V4 | exact V5].
 Qed.
 
 (* ------------------------------------------------------------------ the number language: every emitted string is a number token *)
